@@ -420,15 +420,16 @@ func NewKeyFromPrivate(priv crypto.PrivateKey) (*Key, error) {
 	}
 }
 
-// ecCoordinate encodes an EC2 x or y coordinate on the full field size, since
-// RFC 8152 Section 13.1.1 requires leading zero octets to be preserved (the
-// coordinate 0 would otherwise have no octets at all). A value that does not
-// fit is returned unpadded and reported by Key.validate.
+// ecCoordinate returns the big-endian octets of an EC2 x or y coordinate as
+// stored in a Key. Leading zero octets are restored to the full field size
+// when the Key is serialized (see MarshalCBOR), but a coordinate equal to 0 has
+// no octets at all and would be indistinguishable from a missing coordinate:
+// it is stored as size zero octets.
 func ecCoordinate(v *big.Int, size int) []byte {
-	if v.Sign() < 0 || v.BitLen() > size*8 {
-		return v.Bytes()
+	if b := v.Bytes(); len(b) > 0 {
+		return b
 	}
-	return v.FillBytes(make([]byte, size))
+	return make([]byte, size)
 }
 
 var (
